@@ -377,6 +377,63 @@ impl BigNat {
             self.mul_small(base);
         }
     }
+    /// Divide in place by a small number, returning the remainder.
+    pub fn divmod_small(&mut self, k: u32) -> u32 {
+        let mut rem: u64 = 0;
+        for l in self.limbs.iter_mut().rev() {
+            let cur = rem * 1_000_000_000 + *l as u64;
+            *l = (cur / k as u64) as u32;
+            rem = cur % k as u64;
+        }
+        while self.limbs.last() == Some(&0) {
+            self.limbs.pop();
+        }
+        rem as u32
+    }
+    pub fn is_zero(&self) -> bool {
+        self.limbs.is_empty()
+    }
+    pub fn add_small(&mut self, k: u32) {
+        let mut carry = k as u64;
+        for l in self.limbs.iter_mut() {
+            let t = *l as u64 + carry;
+            *l = (t % 1_000_000_000) as u32;
+            carry = t / 1_000_000_000;
+            if carry == 0 {
+                break;
+            }
+        }
+        if carry != 0 {
+            self.limbs.push(carry as u32);
+        }
+    }
+    /// Subtract 1 (the number must be positive).
+    pub fn sub_one(&mut self) {
+        for l in self.limbs.iter_mut() {
+            if *l == 0 {
+                *l = 999_999_999;
+            } else {
+                *l -= 1;
+                break;
+            }
+        }
+        while self.limbs.last() == Some(&0) {
+            self.limbs.pop();
+        }
+    }
+    /// Positional numeral in any radix 2..=36 (upper-case digits).
+    pub fn to_radix(&self, radix: u32) -> Vec<u8> {
+        let mut n = self.clone();
+        if n.is_zero() {
+            return vec![b'0'];
+        }
+        let mut out = Vec::new();
+        while !n.is_zero() {
+            out.push(digit_char(n.divmod_small(radix)));
+        }
+        out.reverse();
+        out
+    }
     pub fn to_decimal(&self) -> String {
         if self.limbs.is_empty() {
             return "0".to_string();
